@@ -53,6 +53,10 @@ func init() {
 		Level:       "held on every executed case: every adapter (one per exported slice/map helper, cross-checked against the package's exported functions) x 200 (thorough 2000) generated argument tuples x spare capacity {0,1,8}, and every ordered pair of non-in-place adapters sharing the first argument x 20 (200) tuples; arguments compared with shadow copies incl. sentinel-filled capacity regions, earlier results re-read after later calls",
 		Technique:   "shadow-copy monitor with capacity-region sentinels; result re-read after later calls",
 		Assumptions: []string{"helpers whose arguments are strings/scalars only cannot disturb them (Go strings are immutable) and are listed, not executed", "views (Drop, Chunk) may alias their argument; only writes are judged", "the documented in-place helpers are Reverse, Reject, Omit, OmitBy, heap.FromSlice, heap.Sort"}})
+	reg(&propCfg{ID: "C18", Pkg: "./props/c18", Variants: simple(false),
+		Level:       "held on every executed case: complete enumeration of n in -2..8 x 0..12 calls x counter types for After/Before, 0..12 calls for Once, n in -2..8 x all 511 success/failure patterns up to length 8 for Retry and RetryWithDelay (the latter inside testing/synctest bubbles: gaps between attempts are exact virtual-time differences)",
+		Technique:   "counting-callback monitor over complete enumeration; virtual time (testing/synctest) for the delay clause",
+		Assumptions: []string{"the fake clock of testing/synctest is trusted as the time source the library reads", "not asserted: Retry's error value for n <= 0; counter wrap-around of narrow integer types after > 127 calls"}})
 	reg(&propCfg{ID: "C04", Pkg: "./props/c04", Variants: simple(false),
 		Technique:   "reference-model trace monitor (map model) over systematic small-scope sweep + seeded random sequences",
 		Assumptions: []string{"the map model and the generators are trusted", "single goroutine; concurrency is C01/C02"}})
